@@ -415,7 +415,7 @@ def lag_rules(chk, fi):
         chk.ob("R-LAGSEARCH", c + "{exit: %s under %s}" % (type(stn).__name__.lower(), " & ".join(("" if pol else "not ") + ast.unparse(t) for t, pol in chain) or "no condition"),
                "the per-signal body is left early only on the master test or on a test of the selected lag alone", ok,
                derived="guarded by %s" % (bad if bad else "master / selected-lag tests only") if chain else "unconditional",
-               loc=fi.loc(stn), stmt=norm_stmt(stn),
+               loc=fi.loc(stn), stmt=norm_stmt(stn), inconclusive=(not ok and not lagvars),     # no lag loop located: cannot tell which name is the lag
                detail="a lagged signal whose residual meets this data-dependent condition is left unaligned" if not ok else None)
     if not exits:
         chk.ob("R-LAGSEARCH", c + "{exits}", "the master is skipped by an early exit or a guard", True, derived="no early exit in the body", loc=fi.loc(lp))
